@@ -765,3 +765,58 @@ Lemma synthetic_meets_real : exists zone row m sh s,
 Proof.
   exists 42, 0, (id_epoch_ms + 43008), 0, 0. split; vm_compute; reflexivity.
 Qed.
+
+(** * Response de-duplication *)
+
+Lemma dedup_ids_nodup : forall rows seen,
+  NoDup (map snd rows) -> (forall id, In id seen -> ~ In id (map snd rows)) ->
+  dedup_ids seen rows = rows.
+Proof.
+  induction rows as [|[x id] r IH]; intros seen Hnd Hseen; cbn [dedup_ids]; [reflexivity|].
+  cbn [map snd] in Hnd, Hseen. inversion Hnd as [|? ? Hnin Hnd']; subst.
+  destruct (existsb (N.eqb id) seen) eqn:Ex.
+  - apply existsb_exists in Ex. destruct Ex as (y & Hy & Ey). apply N.eqb_eq in Ey. subst y.
+    exfalso. apply (Hseen id Hy). left. reflexivity.
+  - f_equal. apply IH; [exact Hnd'|].
+    intros y [<-|Hy] Hin; [contradiction|]. apply (Hseen y Hy). right. exact Hin.
+Qed.
+
+Lemma number_rows_ids : forall ids, map snd (number_rows ids) = ids.
+Proof.
+  intro ids. unfold number_rows.
+  assert (G : forall (l1 l2 : list N), length l1 = length l2 -> map snd (combine l1 l2) = l2).
+  { induction l1 as [|a l1 IH]; intros [|b l2] H; cbn in *; try discriminate; [reflexivity|].
+    f_equal. apply IH. lia. }
+  apply G. rewrite map_length, seq_length. reflexivity.
+Qed.
+
+(** When the ids are pairwise distinct the response shows every row: nothing is merged or
+    dropped as a duplicate. *)
+Lemma unique_ids_all_rows_visible : forall ids,
+  NoDup ids -> dedup_ids [] (number_rows ids) = number_rows ids.
+Proof.
+  intros ids H. apply dedup_ids_nodup; [rewrite number_rows_ids; exact H|]. intros id [].
+Qed.
+
+(** Outside the known class every event applied over both lifetimes is visible. *)
+Lemma visible_after_restart_outside_known : forall sh k1 rs1 k2 rs2,
+  Forall (fun r => in_window r = true) rs1 -> Forall (fun r => in_window r = true) rs2 ->
+  (shard_component sh <> 0 \/ Forall (fun r => r <> id_epoch_ms) rs1) ->
+  restart_clock_not_advanced (gen_after k1 gen0 sh rs1) rs2 = false ->
+  visible_after_restart sh k1 rs1 k2 rs2 = number_rows (restart_history sh k1 rs1 k2 rs2).
+Proof.
+  intros. unfold visible_after_restart. apply unique_ids_all_rows_visible.
+  apply StronglySorted_lt_NoDup. apply across_restart_outside_known; assumption.
+Qed.
+
+(** In the known class a stored event disappears from the answer: two STOREs before the restart,
+    two after it in the same millisecond — four events applied, two rows shown. *)
+Lemma restart_drops_rows_refuted :
+  exists sh k1 rs1 k2 rs2,
+    Forall (fun r => in_window r = true) rs1 /\ Forall (fun r => in_window r = true) rs2 /\
+    length (restart_history sh k1 rs1 k2 rs2) = 4%nat /\
+    map fst (visible_after_restart sh k1 rs1 k2 rs2) = [0; 1].
+Proof.
+  exists 0, 2%nat, [id_epoch_ms + 5; id_epoch_ms + 5], 2%nat, [id_epoch_ms + 5; id_epoch_ms + 5].
+  split; [repeat constructor|]. split; [repeat constructor|]. split; vm_compute; reflexivity.
+Qed.
